@@ -192,7 +192,15 @@ impl Prop for ModelProg {
             return c10_corpus_case(_idx as usize, ctx);
         }
         let o = self.opts(rng);
-        let p = gen::generate(rng, o);
+        let mut p = gen::generate(rng, o);
+        if rng.chance(1, 12) && !p.lines.is_empty() {
+            // numbered up to the largest line number there is: its messages name it like any other line
+            let step = *rng.pick(&[1u16, 2, 5, 10]);
+            let n = p.lines.len() as u32;
+            if (n - 1) * (step as u32) < 60_000 {
+                p.number((65_529 - (n - 1) * step as u32) as u16, step);
+            }
+        }
         let lines = gen::render(&p);
         let text = lines.join("\n");
         mon::journal(&text);
